@@ -151,7 +151,7 @@ def corpus(tier):
     files.append(bytes.fromhex(c03.HEADER + le(5 << 16 | 52) + le(1) + le(2) + le(43) + le(7)))
     files.append(bytes.fromhex(c03.HEADER + le(0xffff << 16 | 10) + "6162"))
     glsl = "474c534c" "2e737464" "2e343530" "00000000"
-    for num in (1, 81, 82, 9999, 0xffffffff):
+    for num in (0, 1, 81, 82, 9999, 0xffffffff):
         files.append(bytes.fromhex(c03.HEADER + le(6 << 16 | 11) + le(1) + glsl + le(2 << 16 | 19) + le(2) + le(3 << 16 | 33) + le(3) + le(2) +
                                    le(5 << 16 | 54) + le(2) + le(4) + le(0) + le(3) + le(2 << 16 | 248) + le(5) + le(6 << 16 | 12) + le(2) + le(6) + le(1) + le(num) + le(6) +
                                    le(1 << 16 | 253) + le(1 << 16 | 56)))
